@@ -338,3 +338,69 @@ def ob_resolve_event_stream(n: int, last_term: bool, sti: int, now: bool, a: int
         want = want + [n]
     got = MiniLoop().run_until_complete(main())
     return got == want
+
+
+# ------------------------------------------------------------------------------------------------ several live subscribers
+
+
+def _multi_sub_scenario(store, n, k1, k2, g1, g2, slow1):
+    """Events 0..n-1 (the last one terminal) are appended ONE AT A TIME (gap g_i before append i, 0 = one loop iteration) while two
+    subscribers with cursors k1, k2 are live from instant 0; subscriber 1 sleeps `slow1` after every event.
+    Returns the two yielded sequence lists, or None for a subscriber that did not end."""
+    n = pick_int(n, 2, 3)
+    gaps = [0, pick_int(g1, 0, GMAX), pick_int(g2, 0, GMAX)]
+    slow1 = pick_int(slow1, 0, GMAX)
+    k1, k2 = pick_int(k1, -1, 1), pick_int(k2, -1, 1)
+    got = [[], []]
+
+    def payload(i):
+        return env_term(i % 3) if i == n - 1 else env_plain(i)
+
+    async def writer():
+        for i in range(n):
+            await asyncio.sleep(gaps[i])
+            await store.append_event("a", payload(i))
+
+    async def subscriber(j, k, slow):
+        async for e in store.subscribe_events("a", k):
+            got[j].append(e.sequence)
+            await asyncio.sleep(slow)
+
+    async def main():
+        s1 = asyncio.ensure_future(subscriber(0, k1, slow1))
+        s2 = asyncio.ensure_future(subscriber(1, k2, 0))
+        w = asyncio.ensure_future(writer())
+        await w
+        ended = []
+        for s in (s1, s2):
+            try:
+                await asyncio.wait_for(s, timeout=1000)
+                ended.append(True)
+            except asyncio.TimeoutError:
+                ended.append(False)
+        return ended
+
+    ended = MiniLoop().run_until_complete(main())
+    return [got[j] if ended[j] else None for j in (0, 1)]
+
+
+@obligation(quick=150, thorough=400, partitions_quick=[f"n == {n} and sq == {s}" for n in (2, 3) for s in (False, True)],
+            partitions_thorough=[f"n == {n} and sq == {s} and k1 == {k}" for n in (2, 3) for s in (False, True) for k in (-1, 0, 1)],
+            what="TWO live subscribers of one run (cursors symbolic, one of them slow) while events are appended one at a time: each gets exactly "
+                 "the events above its own cursor, in order, once, and its stream ends right after the terminal event — memory and SQLite alike",
+            bounds={"events": "2..3 (last one terminal)", "cursors": "-1..n-2 each", "writer gaps": "0..GMAX", "slow subscriber delay": "0..GMAX"})
+def ob_two_subscribers(n: int, k1: int, k2: int, g1: int, g2: int, slow1: int, sq: bool) -> bool:
+    """
+    pre: 2 <= n <= 3 and -1 <= k1 <= n - 2 and -1 <= k2 <= n - 2
+    pre: 0 <= g1 <= GMAX and 0 <= g2 <= GMAX and 0 <= slow1 <= GMAX and (n > 2 or g2 == 0)
+    post: _
+    """
+    n = pick_int(n, 2, 3)
+    if sq:
+        with TmpDir() as tmp:
+            st = SqliteWorkflowStore(os.path.join(tmp, "s.db"), poll_interval=1.0)
+            r = _multi_sub_scenario(st, n, k1, k2, g1, g2, slow1)
+    else:
+        r = _multi_sub_scenario(MemoryWorkflowStore(), n, k1, k2, g1, g2, slow1)
+    k1, k2 = pick_int(k1, -1, 1), pick_int(k2, -1, 1)
+    return r[0] == list(range(k1 + 1, n)) and r[1] == list(range(k2 + 1, n))
